@@ -55,6 +55,28 @@ def random_cfvar(rng, gd, cls=None):
     return [y, world], cls
 
 
+def _spoil(res):
+    """The caller does what it likes with a result it was handed (here: empties every mutable container in it)."""
+    if isinstance(res, (set, list, dict)):
+        res.clear()
+    elif isinstance(res, tuple):
+        for x in res:
+            _spoil(x)
+
+
+def _again(rng, gd, g, res, call):
+    """Ask the same question again after the caller has edited the first answer - on the same graph object or on an
+    equal new one; the monitors judge the second call like any other (a memo must not hand out its own objects)."""
+    if res is None or res == "!" or rng.random() > 0.35:
+        return
+    _spoil(res)
+    kernel.count("C19:asked-again-after-editing-the-first-answer")
+    try:
+        call(g if rng.random() < 0.5 else gg.to_nx(gd))
+    except Exception:  # noqa: BLE001 -- judged by the monitors
+        pass
+
+
 def run_case(ctx, gd, rng, i):
     from y0.algorithm.counterfactual_transport.ancestor_utils import (get_ancestors_of_counterfactual,
                                                                        get_ancestral_components, minimize_counterfactual)
@@ -75,9 +97,13 @@ def run_case(ctx, gd, rng, i):
         except Exception:  # noqa: BLE001 -- judged by the monitors
             pass
         nt = (c.get("C19:minimize:subscripts-dropped", 0) > n0) if op == 0 else bool(world)
+        shown = str(res) if op == 0 else sorted(map(str, res or []))
+        if op == 1:
+            _again(rng, gd, g, res, lambda g2: get_ancestors_of_counterfactual(var, g2))
+            res = shown
         ctx.case(f"{'min' if op == 0 else 'anc'}|{gk}|{name}|{world}", nt,
                  sample={"op": "minimize" if op == 0 else "ancestors", "graph": gd, "variable": str(var), "class": cls,
-                         "result": str(res) if op == 0 else sorted(map(str, res or []))})
+                         "result": shown})
     elif op == 2:
         ev, cls = gev.random_event(rng, gd, max_items=4)
         if not ev:
@@ -95,6 +121,8 @@ def run_case(ctx, gd, rng, i):
                  c.get("C19:simplify:conjuncts-removed", 0) > n0 or res is None,
                  sample={"op": "simplify", "graph": gd, "event": gev.key([x for x in ev if x[2] is not None]), "class": cls,
                          "result": None if res is None else (res if res == "!" else gev.key([x for x in gev.from_event(res) if x[2] is not None]))})
+        _again(rng, gd, g, res, lambda g2: simplify(
+            event=[(gev.var_of(x), (None if x[2] is None else gev.to_pairs([x])[0][1])) for x in ev], graph=g2))
     elif op == 3:
         roots = []
         for _ in range(rng.randint(1, 3)):
@@ -132,6 +160,7 @@ def run_case(ctx, gd, rng, i):
         ctx.case(f"fact|{gk}|{gev.key(ev)}", c.get("C19:factorization:with-two-or-more-factors", 0) > n0,
                  sample={"op": "factorization", "graph": gd, "event": gev.key(ev), "class": cls,
                          "result": str(res[0]) if res else None})
+        _again(rng, gd, g, res, lambda g2: do_counterfactual_factor_factorization(variables=gev.to_pairs(ev), graph=g2))
 
 
 def run_shard(ctx):
